@@ -446,6 +446,27 @@ def _combine_dense(dense, groups, new_axes_sorted, maps):
     return r, final
 
 
+def placeholder_labels(labels):
+    """Names combine_legs uses for unlabeled legs inside pipe labels: '?<position>', prefixed with further '?' while the name is
+    already taken by another leg (placeholders of earlier calls survive on non-combined legs)."""
+    lab = list(labels)
+    for i, l in enumerate(lab):
+        if l is None:
+            l = '?%d' % i
+            while l in lab:
+                l = '?' + l
+            lab[i] = l
+    return lab
+
+
+def _result_labels_clash(labels, groups):
+    """Would the labels of the result contain duplicates (e.g. combining ['b'] next to a leg already called '(b)')?"""
+    lab = placeholder_labels(labels)
+    inside = set(x for g in groups for x in g)
+    res = ['(' + '.'.join(lab[x] for x in g) + ')' for g in groups] + [l for i, l in enumerate(labels) if i not in inside and l is not None]
+    return len(set(res)) < len(res)
+
+
 @op('combine_legs', 4.0)
 def op_combine(P):
     rng = P.rng
@@ -480,6 +501,16 @@ def op_combine(P):
         kw['new_axes'] = new_axes[0] if (flat_form and rng.random() < 0.5) else list(new_axes)
     arg = refs[0] if flat_form else refs
     P.log.append(['combine_legs', {'a': P.slots.index(a), 'combine_legs': repr(arg), 'kw': repr(kw)}])
+    if _result_labels_clash(a.labels, groups):
+        # labels have to be unique: tenpy refuses (ValueError 'Duplicate label entry'), which is the documented contract
+        try:
+            a.arr.combine_legs(arg, **kw)
+        except ValueError as e:
+            if 'Duplicate label' in str(e):
+                P.count('combine.refused_duplicate_labels')
+                raise Skip()
+            raise
+        raise Skip()
     r = a.arr.combine_legs(arg, **kw)
     if a.arr.stored_blocks == 1:
         P.count('combine.single_block')
@@ -513,7 +544,7 @@ def op_combine(P):
         slegs_pipes.append(sl)
         maps.append(sl.pipe['map'])
     exp, final = _combine_dense(a.dense, groups_s, new_axes_s, maps)
-    lab = [(l if l is not None else '?%d' % i) for i, l in enumerate(a.labels)]
+    lab = placeholder_labels(a.labels)
     labels, legs = [], []
     gi = {tuple(g): k for k, g in enumerate(groups_s)}
     for f in final:
@@ -1178,7 +1209,14 @@ def op_misc(P):
     if kind == 'as_completely_blocked':
         if a.ndim == 0:
             raise Skip()
-        enc, r = a.arr.as_completely_blocked()
+        try:
+            enc, r = a.arr.as_completely_blocked()
+        except ValueError as e:
+            # the documented result carries the pipe labels '(label)' of the encapsulated legs: refused if that name is taken
+            if 'Duplicate label' in str(e) and any(isinstance(l, str) and ('(' + l + ')') in a.labels for l in a.labels):
+                P.count('as_completely_blocked.refused_duplicate_labels')
+                raise Skip()
+            raise
         for i, l in enumerate(r.legs):
             if not _harness_blocked(l):
                 P.violation('as_completely_blocked:leg-not-blocked', 'leg %d charges %r (encapsulated axes %r)' %
@@ -1201,7 +1239,7 @@ def op_misc(P):
         r = a.arr.combine_legs([axes], pipes=[pipe])
         sl = _pipe_sleg(P, 'make_pipe', r.legs[min(axes) if True else 0] if False else r.legs[_first_pos(axes)], [a.legs[x] for x in axes])
         exp, final = _combine_dense(a.dense, [axes], [_first_pos(axes)], [sl.pipe['map']])
-        lab = [(l if l is not None else '?%d' % i) for i, l in enumerate(a.labels)]
+        lab = placeholder_labels(a.labels)
         labels, legs = [], []
         for f in final:
             if len(f) == 2:
